@@ -135,31 +135,19 @@ def r3(ctx, cfg):
     ctx.ob(R, key, "submsg-gets-parent-storage", is_param(st, "storage"),
            "execute_submsg receives %s, expected process_response's own storage" % fmt(st), fn=g, line=t["line"],
            sample=fmt(st))
-    # error of execute_submsg is propagated out of the fold closure
-    ret = P.ret(g)
-    prop = contains(ret, lambda x: x[0] == "call" and x[1].endswith("FromResidual::from_residual") and any(
-        contains(a, lambda y: y[0] == "call" and y[1] == KEY) for a in x[2]))
-    ctx.ob(R, key, "submsg-error-propagates-from-fold-closure", prop,
-           "fold closure does not propagate the error of execute_submsg: returns %s" % fmt(ret)[:200], fn=g,
-           sample="closure returns from_residual(err(execute_submsg(..)))")
-    # and out of process_response
-    use = P.closure_use(g) if g.kind == "closure" else None
-    ok = False
-    d = "-"
-    if use is not None:
-        parent, cb, ct, ai = use
-        name = ct["callee"]["key"]
-        d = name
-        if name in ("std::iter::Iterator::try_fold", "std::iter::Iterator::try_for_each") and parent.key == key:
-            pret = P.ret(parent)
-            ok = contains(pret, lambda x: x[0] == "call" and x[1].endswith("FromResidual::from_residual") and any(
-                contains(a, lambda y: y[0] == "call" and y[1] == name) for a in x[2]))
-    elif g.key == key:
-        # for-loop form: `?` directly in process_response
-        ok = prop
-        d = "direct"
-    ctx.ob(R, key, "fold-error-propagates", ok, "error of the sub-message fold is not propagated (%s)" % d, fn=f,
-           sample="try_fold(..)? in process_response")
+    # the error of execute_submsg leaves process_response as an error: no Err/Break edge of its result leads back into
+    # the loop or to an Ok return (`try_fold(|..| { execute_submsg(..)?; .. })?` and `for m in msgs { execute_submsg(..)?; }`
+    # are the same loop after vlib/inline.py A9/A10)
+    ef = q.error_fate(P, g, bid)
+    ctx.ob(R, key, "submsg-error-propagates-from-fold-closure", bool(ef["edges"]) and not ef["continues"],
+           "a failed execute_submsg does not stop the iteration over the sub-messages (error edges: %d, back to the loop: %s)" % (len(ef["edges"]), ef["continues"]),
+           fn=g, line=t["line"], sample="%d error edge(s), none reaches next()" % len(ef["edges"]))
+    ok = g.key == key and bool(ef["edges"]) and not ef["ok_reachable"]
+    ret = P.ret(f)
+    ok = ok and contains(ret, lambda x: x[0] == "call" and x[1].endswith("FromResidual::from_residual") and len(x[2]) == 1 and
+                         peel(x[2][0])[0] == "err" and peel(peel(x[2][0])[1])[0] == "call" and peel(peel(x[2][0])[1])[1] == KEY)
+    ctx.ob(R, key, "fold-error-propagates", ok, "the error of a sub-message is not what process_response returns (Ok reachable from its error edge: %s)" % ef["ok_reachable"], fn=f,
+           sample="returns from_residual(err(execute_submsg(..)))")
     # sub_messages iterated in order: no deny-listed adapter in the lexical body
     from rules.C01 import DENY_ADAPTERS
     bad = []
